@@ -76,7 +76,7 @@ def main():
     chk.cov["trusted_base"] = TRUSTED_COMMON + ["Print Assumptions: all four theorems closed under the global context (no axioms)"]
     chk.assumptions = ["lists have at most 2^63-1 elements (Rust Vec invariant)", "integers held by values lie in [-2^127, 2^128) (value representation)",
                        "modelled: ops.rs::{slice_bound,slice_indices,slice_vec,slice}, Value::get_item_opt index helper; the iterator adaptors skip/step_by/take are modelled by skipZ/step_byZ/takeZ"]
-    ok_models, blog = build_models()
+    ok_models, blog = build_models("C09")
     proofs_ok = chk.run_proofs()
     okc, clog = cargo_build(["c09"], release=False)
     okr, clog2 = cargo_build(["c09"], release=True)
@@ -91,8 +91,8 @@ def main():
         cases, exn = [rp["replay"]["case"]], 0
     else:
         cases, exn = gen(chk)
-    r = corr(chk, "R09.run", "c09", "c09", cases)
-    spec = run_model("c09-spec", cases)
+    r = corr(chk, "run", "c09", "c09", cases)
+    spec = run_model("C09", "c09-spec", cases)
     # the theorem, re-observed: extracted model = extracted spec on every compared input
     model_vs_spec = [i for i in range(len(cases)) if r["model"][i] != spec[i]]
     # oracle on the implementation: impl output must equal Python's answer
